@@ -483,7 +483,9 @@ def collection_builds(g: CFG, fn_node: ast.AST, name: str) -> List[Build]:
             if h.kind == "for":
                 starts = [d for lab, d in h.succ if lab == "T"]
                 r = g.reach(starts, skip_node=lambda x, n=n: x.id == n.id, skip_edge=lambda a_, l, b_: l == "exc")
-                out.append(Build(h.ast.iter, a.value, h.ast.target, [], h.id not in r, n, key=a.targets[0].slice))
+                uncond = h.id not in r
+                ifs = [t.ast for t in g.nodes.values() if t.kind == "test" and h.id in t.loops] if not uncond else []
+                out.append(Build(h.ast.iter, a.value, h.ast.target, ifs, uncond, n, key=a.targets[0].slice))
     return out
 
 
